@@ -436,7 +436,7 @@ class Check:
         )
         evd = dict(property_id=pid, tier=tier, seed=seed, level="proof", coverage=cov,
                    assumptions=self.assumptions, wall_s=round(wall, 1), violations=len(violations))
-        if not replay:
+        if not replay and REPO == "/repo" and not os.environ.get("VERIF_NO_EVIDENCE"):
             os.makedirs(os.path.join(ROOT, "evidence"), exist_ok=True)
             json.dump(evd, open(os.path.join(ROOT, "evidence", pid + ".json"), "w"), indent=1)
         for n in notes:
